@@ -724,7 +724,35 @@ def r45(ctx: Ctx) -> RuleReport:
     rets = [n for n in walk_local(fi.node) if isinstance(n, ast.Return) and n.value is not None]
     good = len(rets) == 1 and isinstance(rets[0].value, ast.Call) and isinstance(rets[0].value.func, ast.Attribute) \
         and rets[0].value.func.attr == 'join' and try_fold(rets[0].value.func.value) == (True, '\n')
-    rep.add('penman._format:format: metadata lines and the node are joined by single line feeds', fi.loc(), 'ok' if good else 'undecided')
+    kj = 'penman._format:format: metadata lines and the node are joined by single line feeds'
+    decided = False
+    if not good and len(rets) == 1 and isinstance(rets[0].value, ast.Call) and isinstance(rets[0].value.func, ast.Attribute) and rets[0].value.func.attr == 'join':
+        sepx = rets[0].value.func.value
+        # the separator comes from a helper: which strings can it return?
+        if isinstance(sepx, ast.Call):
+            hs = [t.func for t in ctx.cg.resolve_call(sepx, fi) if t.kind == 'func']
+            if len(hs) == 1:
+                from ..resolve import symbolic_returns
+                try:
+                    paths = symbolic_returns(hs[0])
+                except AnalysisError:
+                    paths = []
+                for conds, val, st_ in paths:
+                    okv, sv = try_fold(val) if val is not None else (False, None)
+                    if okv and isinstance(sv, str) and '\n' not in sv:
+                        cs = [norm(c) if pol else f'not ({norm(c)})' for c, pol in conds]
+                        rep.violation(kj, hs[0].loc(st_), f'the separator between the metadata comments and the graph is `{norm(sepx)[:40]}`, and {hs[0].qualname} returns {sv!r} when '
+                                      f'{cs or "called"}: a comment runs to the end of its line, so with that separator the first "# ::key value" line swallows every later '
+                                      f'comment and the graph itself - the text no longer parses to the graphs that were written')
+                        decided = True
+                        break
+        else:
+            oks_, sv_ = try_fold(sepx)
+            if oks_ and isinstance(sv_, str) and '\n' not in sv_:
+                rep.violation(kj, fi.loc(rets[0]), f'the parts are joined with {sv_!r}: a comment runs to the end of its line, so the first metadata line swallows the rest')
+                decided = True
+    if not decided:
+        rep.add(kj, fi.loc(), 'ok' if good else 'undecided')
     # reader side
     # the comment scanner: the function of penman._parse that splits comment text at "::"
     cands = [f for f in ctx.repo.module('penman._parse').all_funcs if any(
@@ -896,6 +924,34 @@ def r56(ctx: Ctx) -> RuleReport:
     if it_src is None or elt is None:
         rep.undecided('penman._format:format_triples: every triple of the argument is written, in order', fi.loc(), norm(raw.args[0])[:60])
         return rep
+    if it_src != fi.positional[0] and not filtered and isinstance(items, (ast.ListComp, ast.GeneratorExp)):
+        # the triples pass through map(helper, triples) before they are written: does the helper hand every triple back unchanged?
+        g_it = items.generators[0].iter
+        if isinstance(g_it, ast.Call) and norm(g_it.func) == 'map' and len(g_it.args) == 2 and norm(g_it.args[1]) == fi.positional[0]:
+            probe = ast.copy_location(ast.Call(func=g_it.args[0], args=[ast.Name(id='_t', ctx=ast.Load())], keywords=[]), g_it)
+            ast.fix_missing_locations(probe)
+            hs_ = [t.func for t in ctx.cg.resolve_call(probe, fi) if t.kind == 'func']
+            if len(hs_) == 1:
+                from ..resolve import symbolic_returns
+                try:
+                    paths_ = symbolic_returns(hs_[0])
+                except AnalysisError:
+                    paths_ = []
+                hp = hs_[0].positional[0] if hs_[0].positional else None
+                slot_ = {f'{hp}[{i_}]': i_ for i_ in range(3)}
+                for n_ in walk_local(hs_[0].node):
+                    if isinstance(n_, ast.Assign) and isinstance(n_.targets[0], ast.Tuple) and len(n_.targets[0].elts) == 3 and norm(n_.value) == hp:
+                        for i_, e_ in enumerate(n_.targets[0].elts):
+                            if isinstance(e_, ast.Name):
+                                slot_[e_.id] = i_
+                for conds_, val_, st_ in paths_:
+                    same = val_ is not None and (norm(val_) == hp or (isinstance(val_, ast.Tuple) and [slot_.get(norm(e)) for e in val_.elts] == [0, 1, 2]))
+                    if not same and val_ is not None and isinstance(val_, ast.Tuple) and len(val_.elts) == 3:
+                        cs_ = [norm(c) if pol else f'not ({norm(c)})' for c, pol in conds_][:4]
+                        rep.violation('penman._format:format_triples: every triple of the argument is written, in order', hs_[0].loc(st_),
+                                      f'the triples go through {hs_[0].qualname} before they are written, and when {cs_} it returns `{norm(val_)[:70]}` instead of the triple it was '
+                                      f'given: the conjunction then states a different triple (another role, source and target exchanged), and parsing it back does not return the list')
+                        return rep
     rep.add('penman._format:format_triples: every triple of the argument is written, in order', fi.loc(),
             'ok' if it_src == fi.positional[0] and not filtered else ('violation' if filtered else 'undecided'), it_src)
     # the text of one triple may be produced by a local helper: helper(triple) -> template over the unpacked triple
